@@ -10,10 +10,12 @@ import (
 	"context"
 	"encoding/json"
 	"fmt"
+	"math"
 	"math/rand"
 	"os"
 	"runtime/debug"
 	"sort"
+	"strconv"
 	"strings"
 
 	"github.com/cloudwego/dynamicgo/conv"
@@ -34,7 +36,45 @@ type TFld struct {
 	Alias string `json:"alias"` // api.key annotation ("" = none)
 	Req   string `json:"req"`   // req | opt | def
 	Ty    TyX    `json:"ty"`
+	Dflt  DV     `json:"dflt"` // declared default value (k = "none": none)
 }
+
+// DV: a constant value as the IDL writes it - a literal, the name of a constant, or the name of an enum value
+type DV struct {
+	K    string `json:"k"`    // none | num | str | bool | const | enum
+	Int  bool   `json:"int"`  // num: written as an integer literal
+	I    B      `json:"i"`    // num: the integer (8 bytes), meaningful when int
+	F    B      `json:"f"`    // num: IEEE bits of the value as a double (lexical oracle: strconv)
+	S    B      `json:"s"`    // str
+	Bv   bool   `json:"bv"`   // bool
+	Ref  string `json:"ref"`  // const: "file:NAME"; enum: "file:Enum"
+	Name string `json:"name"` // enum: A | B (values 0 and 5)
+}
+type TConst struct {
+	Name string `json:"name"`
+	Ty   TyX    `json:"ty"`
+	Val  DV     `json:"val"`
+}
+
+func (d DV) norm() DV {
+	if d.K == "" {
+		d.K = "none"
+	}
+	if d.I == nil {
+		d.I = B{}
+	}
+	if d.F == nil {
+		d.F = B{}
+	}
+	if d.S == nil {
+		d.S = B{}
+	}
+	return d
+}
+func numDV(i int64, asInt bool, f float64) DV {
+	return DV{K: "num", Int: asInt, I: be8(i), F: be8(int64(math.Float64bits(f)))}.norm()
+}
+
 type TStruct struct {
 	Name   string `json:"name"`
 	Kind   string `json:"kind"` // struct | union | exception
@@ -63,6 +103,7 @@ type TFile struct {
 	Enums    []string  `json:"enums"`
 	Structs  []TStruct `json:"structs"`
 	Svcs     []TSvc    `json:"svcs"`
+	Consts   []TConst  `json:"consts"`
 }
 type TSch struct {
 	Files []TFile `json:"files"` // Files[0] = main
@@ -73,6 +114,7 @@ type TOpts struct {
 	SvcMode string `json:"svcmode"` // last | first | combine
 	SvcName string `json:"svcname"`
 	OptBM   bool   `json:"optbm"`
+	UseDflt bool   `json:"usedflt"`
 }
 
 func base(path string) string { return strings.TrimSuffix(path, ".thrift") }
@@ -100,12 +142,47 @@ func (f *TFile) tyText(t TyX) string {
 	return tyName(TyJ{T: t.T})
 }
 
+func (f *TFile) dvText(d DV) string {
+	qual := func(ref string) string {
+		i := strings.Index(ref, ":")
+		if ref[:i] == f.Path {
+			return ref[i+1:]
+		}
+		return base(ref[:i]) + "." + ref[i+1:]
+	}
+	switch d.K {
+	case "num":
+		if d.Int {
+			return strconv.FormatInt(fromBE8(d.I), 10)
+		}
+		t := strconv.FormatFloat(math.Float64frombits(uint64(fromBE8(d.F))), 'f', -1, 64)
+		if !strings.Contains(t, ".") {
+			t += ".0"
+		}
+		return t
+	case "str":
+		return `"` + string(d.S) + `"`
+	case "bool":
+		return fmt.Sprint(d.Bv)
+	case "const":
+		return qual(d.Ref)
+	case "enum":
+		en := d.Ref[strings.Index(d.Ref, ":")+1:]
+		return qual(d.Ref) + "." + strings.ToUpper(en) + "_" + d.Name
+	}
+	return ""
+}
+
 func (f *TFile) fldText(x TFld) string {
 	anno := ""
 	if x.Alias != "" {
 		anno = fmt.Sprintf(" (api.key = %q)", x.Alias)
 	}
-	return fmt.Sprintf("%d: %s%s %s%s", x.ID, reqWord(x.Req), f.tyText(x.Ty), x.Name, anno)
+	dflt := ""
+	if x.Dflt.K != "" && x.Dflt.K != "none" {
+		dflt = " = " + f.dvText(x.Dflt)
+	}
+	return fmt.Sprintf("%d: %s%s %s%s%s", x.ID, reqWord(x.Req), f.tyText(x.Ty), x.Name, dflt, anno)
 }
 
 func printTFile(f TFile) string {
@@ -119,6 +196,9 @@ func printTFile(f TFile) string {
 	}
 	for _, t := range f.Typedefs {
 		fmt.Fprintf(&sb, "typedef %s %s\n", f.tyText(t.Ty), t.Name)
+	}
+	for _, c := range f.Consts {
+		fmt.Fprintf(&sb, "const %s %s = %s\n", f.tyText(c.Ty), c.Name, f.dvText(c.Val))
 	}
 	for _, s := range f.Structs {
 		fmt.Fprintf(&sb, "%s %s {\n", s.Kind, s.Name)
@@ -163,6 +243,8 @@ type FD14 struct {
 	Alias B      `json:"alias"`
 	Req   string `json:"req"`
 	Ty    TyD    `json:"ty"`
+	Has   bool   `json:"has"` // DefaultValue() is non-nil
+	TB    B      `json:"tb"`  // its Thrift encoding
 }
 type KeyProbe14 struct {
 	Key B   `json:"key"`
@@ -237,7 +319,11 @@ func (w *walk14) visit(td *thrift.TypeDescriptor) int {
 			continue
 		}
 		byID[int(f.ID())] = f
-		fs = append(fs, FD14{ID: int(f.ID()), Name: B(f.Name()), Alias: B(f.Alias()), Req: reqName(f.Required()), Ty: w.ty(f.Type())})
+		fd := FD14{ID: int(f.ID()), Name: B(f.Name()), Alias: B(f.Alias()), Req: reqName(f.Required()), Ty: w.ty(f.Type()), TB: B{}}
+		if dv := f.DefaultValue(); dv != nil {
+			fd.Has, fd.TB = true, B(dv.ThriftBinary())
+		}
+		fs = append(fs, fd)
 	}
 	sort.Slice(fs, func(i, j int) bool { return fs[i].ID < fs[j].ID })
 	found := []int{}
@@ -342,6 +428,11 @@ func (c *c14) run(s TSch, o TOpts) {
 		Alias B      `json:"alias"`
 		Req   string `json:"req"`
 		Ty    TyX    `json:"ty"`
+		Dflt  DV     `json:"dflt"`
+	}
+	type kc struct {
+		Key string `json:"key"`
+		Val DV     `json:"val"`
 	}
 	type ks struct {
 		Key    string `json:"key"`
@@ -356,6 +447,7 @@ func (c *c14) run(s TSch, o TOpts) {
 		Funcs   []TFunc `json:"funcs"`
 	}
 	tdefs, enums, structs, svcs, mainSvcs := []kd{}, []string{}, []ks{}, []ksv{}, []string{}
+	consts := []kc{}
 	keySet := map[string]bool{"": true, "zz": true, "a": true}
 	for _, f := range s.Files {
 		for _, t := range f.Typedefs {
@@ -364,10 +456,13 @@ func (c *c14) run(s TSch, o TOpts) {
 		for _, e := range f.Enums {
 			enums = append(enums, f.Path+":"+e)
 		}
+		for _, cst := range f.Consts {
+			consts = append(consts, kc{f.Path + ":" + cst.Name, cst.Val.norm()})
+		}
 		for _, st := range f.Structs {
 			fl := []kf{}
 			for _, x := range st.Fields {
-				fl = append(fl, kf{x.ID, B(x.Name), B(x.Alias), x.Req, x.Ty})
+				fl = append(fl, kf{x.ID, B(x.Name), B(x.Alias), x.Req, x.Ty, x.Dflt.norm()})
 			}
 			structs = append(structs, ks{f.Path + ":" + st.Name, st.Name, st.Kind, fl})
 			for _, x := range st.Fields {
@@ -401,7 +496,7 @@ func (c *c14) run(s TSch, o TOpts) {
 		w.keys = append(w.keys, k)
 	}
 	sort.Strings(w.keys)
-	ev := map[string]interface{}{"ev": "TDesc", "o": o, "typedefs": tdefs, "enums": enums, "structs": structs, "svcs": svcs, "mainsvcs": mainSvcs,
+	ev := map[string]interface{}{"ev": "TDesc", "o": o, "typedefs": tdefs, "enums": enums, "structs": structs, "svcs": svcs, "mainsvcs": mainSvcs, "consts": consts,
 		"st": "ok", "svcname": "", "fns": []Fn14{}, "nodes": []Node14{}, "case": map[string]interface{}{"tsch": s, "o": o}, "idl": files[main.Path]}
 	func() {
 		defer func() {
@@ -409,7 +504,7 @@ func (c *c14) run(s TSch, o TOpts) {
 				ev["st"] = "panic:" + fmt.Sprint(e)
 			}
 		}()
-		opts := thrift.Options{ParseEnumAsInt64: o.Enum64, ServiceName: o.SvcName, SetOptionalBitmap: o.OptBM}
+		opts := thrift.Options{ParseEnumAsInt64: o.Enum64, ServiceName: o.SvcName, SetOptionalBitmap: o.OptBM, UseDefaultValue: o.UseDflt}
 		switch o.MapWay {
 		case "name":
 			opts.MapFieldWay = meta.MapFieldUseFieldName
@@ -497,6 +592,11 @@ func randTSch(r *rand.Rand) TSch {
 	var files []TFile
 	type sym struct{ key, kind string }
 	var visible []sym // symbols of earlier (included) files
+	type csymT = struct {
+		key string
+		t   int
+	}
+	var allConsts []csymT
 	for fi := nf - 1; fi >= 0; fi-- {
 		f := TFile{Path: fmt.Sprintf("f%d.thrift", fi)}
 		if fi == 0 {
@@ -541,6 +641,110 @@ func randTSch(r *rand.Rand) TSch {
 			f.Enums = append(f.Enums, "Kind")
 			local = append(local, sym{f.Path + ":Kind", "E"})
 		}
+		// constants: literals, names of other constants of this file, names of enum values of this file
+		hasEnum := len(f.Enums) > 0
+		type csym = csymT // t: resolved thrift type code of the constant (8 = also usable for every integer width that holds it)
+		var localConsts []csym
+		for ci := 0; ci < r.Intn(5); ci++ {
+			nm := fmt.Sprintf("C%d_%d", fi, ci)
+			var c TConst
+			switch k := r.Intn(6); {
+			case k == 0 && len(localConsts) > 0:
+				o := localConsts[r.Intn(len(localConsts))]
+				c = TConst{Name: nm, Ty: TyX{T: o.t, A: []TyX{}}, Val: DV{K: "const", Ref: o.key}.norm()}
+				localConsts = append(localConsts, csym{f.Path + ":" + nm, o.t})
+			case k == 1 && hasEnum:
+				c = TConst{Name: nm, Ty: TyX{Ref: f.Path + ":Kind", A: []TyX{}}, Val: DV{K: "enum", Ref: f.Path + ":Kind", Name: []string{"A", "B"}[r.Intn(2)]}.norm()}
+				localConsts = append(localConsts, csym{f.Path + ":" + nm, 8})
+			case k == 2:
+				c = TConst{Name: nm, Ty: TyX{T: 11, A: []TyX{}}, Val: DV{K: "str", S: B([]string{"", "x", "hello world", "a-b_c"}[r.Intn(4)])}.norm()}
+				localConsts = append(localConsts, csym{f.Path + ":" + nm, 11})
+			case k == 3:
+				fv := []float64{0.5, -1.25, 1e10, 3}[r.Intn(4)]
+				c = TConst{Name: nm, Ty: TyX{T: 4, A: []TyX{}}, Val: numDV(0, false, fv)}
+				localConsts = append(localConsts, csym{f.Path + ":" + nm, 4})
+			default:
+				iv := []int64{0, 1, -1, 7, 100, 127, -128}[r.Intn(7)] // fits every integer width
+				c = TConst{Name: nm, Ty: TyX{T: 8, A: []TyX{}}, Val: numDV(iv, true, float64(iv))}
+				localConsts = append(localConsts, csym{f.Path + ":" + nm, 8})
+			}
+			f.Consts = append(f.Consts, c)
+		}
+		allConsts = append(allConsts, localConsts...)
+		// resolved type code of a (possibly named) type, as far as defaults care: 2 3 6 8 10 4 11, 8 for enums, 0 otherwise
+		var scalarOf func(t TyX, depth int) int
+		scalarOf = func(t TyX, depth int) int {
+			if t.Ref == "" {
+				switch t.T {
+				case 2, 3, 6, 8, 10, 4:
+					return t.T
+				case 11:
+					if !t.Bin {
+						return 11
+					}
+				}
+				return 0
+			}
+			if depth > 8 {
+				return 0
+			}
+			for _, fl := range append(append([]TFile{}, files...), f) {
+				for _, td := range fl.Typedefs {
+					if fl.Path+":"+td.Name == t.Ref {
+						return scalarOf(td.Ty, depth+1)
+					}
+				}
+				for _, e := range fl.Enums {
+					if fl.Path+":"+e == t.Ref {
+						return 8
+					}
+				}
+			}
+			return 0
+		}
+		randDflt := func(t TyX) DV {
+			sc := scalarOf(t, 0)
+			if sc == 0 || r.Intn(3) != 0 {
+				return DV{}.norm()
+			}
+			// a constant of a fitting type (this file's or an included file's)
+			if r.Intn(2) == 0 {
+				var fit []csym
+				for _, c := range allConsts {
+					if c.t == sc || (c.t == 8 && (sc == 3 || sc == 6 || sc == 10)) {
+						fit = append(fit, c)
+					}
+				}
+				if len(fit) > 0 {
+					return DV{K: "const", Ref: fit[r.Intn(len(fit))].key}.norm()
+				}
+			}
+			isEnum := t.Ref != "" && sc == 8
+			switch sc {
+			case 2:
+				return DV{K: "bool", Bv: r.Intn(2) == 0}.norm()
+			case 11:
+				return DV{K: "str", S: B([]string{"", "x", "hello world", "a-b_c"}[r.Intn(4)])}.norm()
+			case 4:
+				if r.Intn(3) == 0 {
+					iv := []int64{0, 1, -7, 1000}[r.Intn(4)] // an integer literal for a double field
+					return numDV(iv, true, float64(iv))
+				}
+				return numDV(0, false, []float64{0.5, -1.25, 1e10, 3}[r.Intn(4)])
+			}
+			if isEnum && r.Intn(2) == 0 {
+				// the name of a value of some visible enum (Thrift does not tie it to the field's own enum)
+				for _, fl := range append(append([]TFile{}, files...), f) {
+					if len(fl.Enums) > 0 && r.Intn(2) == 0 {
+						return DV{K: "enum", Ref: fl.Path + ":" + fl.Enums[0], Name: []string{"A", "B"}[r.Intn(2)]}.norm()
+					}
+				}
+			}
+			lim := map[int][]int64{3: {-128, -1, 0, 1, 127}, 6: {-32768, -1, 0, 255, 256, 32767}, 8: {-2147483648, -1, 0, 65536, 2147483647},
+				10: {-9223372036854775807 - 1, -1, 0, 2147483648, 9007199254740993, 9223372036854775807}}[sc]
+			iv := lim[r.Intn(len(lim))]
+			return numDV(iv, true, float64(iv))
+		}
 		usedNames := map[string]bool{"Kind": true}
 		for si := 0; si < 1+r.Intn(3); si++ {
 			n := names[r.Intn(len(names))]
@@ -582,6 +786,7 @@ func randTSch(r *rand.Rand) TSch {
 				if x.Ty.Ref == f.Path+":"+n && x.Req == "req" {
 					x.Req = "opt"
 				}
+				x.Dflt = randDflt(x.Ty)
 				st.Fields = append(st.Fields, x)
 			}
 			f.Structs = append(f.Structs, st)
@@ -672,7 +877,7 @@ func c14Main(args map[string]string) {
 			r := rand.New(rand.NewSource(seed*1000003 + int64(i)))
 			s := randTSch(r)
 			for k := 0; k < 3; k++ {
-				o := TOpts{Enum64: r.Intn(2) == 0, MapWay: []string{"alias", "name", "both"}[r.Intn(3)], SvcMode: []string{"last", "first", "combine"}[r.Intn(3)], OptBM: r.Intn(4) == 0}
+				o := TOpts{UseDflt: r.Intn(4) != 0, Enum64: r.Intn(2) == 0, MapWay: []string{"alias", "name", "both"}[r.Intn(3)], SvcMode: []string{"last", "first", "combine"}[r.Intn(3)], OptBM: r.Intn(4) == 0}
 				if r.Intn(5) == 0 {
 					o.SvcName = s.Files[0].Svcs[r.Intn(len(s.Files[0].Svcs))].Name
 				}
